@@ -2,7 +2,7 @@
 import looplib as L
 from vlib import Failure, finish, hexs
 
-COQ_FILES = L.LOOP_COQ_FILES + L.REFINE_COQ_FILES + ["LoopDrainProofs.v"]
+COQ_FILES = L.LOOP_COQ_FILES + L.REFINE_COQ_FILES + ["LoopDrainProofs.v"] + L.CANCEL_COQ_FILES + ["LoopCancelDrainProofs.v"]
 
 GARBAGE = [b"foo\n", b"\xff\xfe\n", b"ACK [5@0] {} nope\n", b"OK\nOK\n", b"x: y\n", b"binary: 99999\n", b"list_OK\nOK\n", b"ACK [x@0] {} z\n", b"OK\n"]
 INVALID = {b"foo\n", b"\xff\xfe\n", b"ACK [x@0] {} z\n"}
@@ -97,7 +97,32 @@ def gen(ctx):
             labels += ["S*", "D0", "t200", "S*", "D0", "e", "t200", "t200"]
         info["fault"] = kind
         items.append((L.Sched(labels=labels, note="random + " + kind), info))
+    # sessions in the domain of the drain theorems (c08_exec_eof_resolves, c08_exec_rerr_resolves and, with callers giving up,
+    # c08_exec_cancel_*): a fragment session, then the end of the stream or a failing read — no flush before it, so that requests
+    # are in flight, held and queued when it happens
+    for _ in range(60 if ctx.tier == "quick" else 1200):
+        labels, info, rid = L.gen_fragment_session(rng, rng.choice([3, 8, 20, 50]), tricky=False, cancels=rng.random() < 0.5)
+        kind = rng.choice(["e", "r"])
+        labels += ["e" if kind == "e" else "r" + str(rng.randrange(8))]
+        labels += ["t200", "t200"]
+        info["fault"] = kind
+        items.append((L.Sched(labels=labels, note="fragment session + " + kind), info))
     return items
+
+
+def drain_membership(ctx, scheds):
+    """How many schedules are a label list of the refinement fragment (possibly with cancellations) followed by e / r: the domain of
+    the drain theorems about the executable system."""
+    pre, idx = [], []
+    for i, s in enumerate(scheds):
+        k = next((j for j, l in enumerate(s.labels) if l[0] in "erwhG"), None)
+        if k is None or s.labels[k][0] not in "er" or s.labels[k] not in ("e",) and not (s.labels[k][0] == "r" and s.labels[k][1:].isdigit() or s.labels[k] == "r"):
+            continue
+        pre.append(L.Sched(cspec=s.cspec, conf=s.conf, labels=s.labels[:k]))
+        idx.append(i)
+    outs = ctx.run_model([" ".join(["loopfrag", s.cspec, s.conf] + s.labels) for s in pre]) if pre else []
+    return {"fragment_then_e_or_r": sum(1 for o in outs if o == "in"), "fragment_with_cancellations_then_e_or_r": sum(1 for o in outs if o == "in+x"),
+            "schedules_ending_in_e_or_r": len(pre)}
 
 
 def run(ctx, only=None):
@@ -191,7 +216,7 @@ def run(ctx, only=None):
     if only is not None:
         for r in results:
             print("labels:", " ".join(r["sched"].labels)[:1500], "\nops   :", " ".join(r["ops"])[:1500], "\nimpl  :", r["impl_raw"][:2500], "\nmodel :", " ".join(r["model_segs"])[:2500])
-    dist = {"schedules": len(scheds), "fault_kinds": kinds, "request_outcomes": outcome_kinds}
+    dist = {"schedules": len(scheds), "fault_kinds": kinds, "request_outcomes": outcome_kinds, "in_domain_of_drain_theorems": drain_membership(ctx, scheds)}
     return finish(
         ctx, evaluations=len(scheds), distinct_nontrivial=nontrivial,
         rule="random session prefixes (0..40 steps) followed by a fault at that point - clean close, stream cut 1..13 bytes into the pending output, "
